@@ -75,9 +75,14 @@ fn one_run(ops: &[Value], tr: &mut Trace) -> (usize, String) {
     let b = Matter::new(&TEST_DEV_DET, TEST_DEV_COMM, &TEST_DEV_ATT, 5540);
     plant(&b, 1, false, false);
     plant(&b, 2, false, false);
+    plant(&b, 3, false, false);
     let crypto = test_only_crypto();
     // policy per exchange id (1..3): from the first op
-    let pol: Vec<String> = ops[0]["p"].as_array().map(|a| a.iter().map(|x| x.as_str().unwrap().to_string()).collect()).unwrap_or_default();
+    let pol: Vec<String> = match &ops[0]["p"] {
+        Value::Array(a) => a.iter().map(|x| x.as_str().unwrap().to_string()).collect(),
+        Value::Object(m) => (1..=m.len()).map(|i| m[&i.to_string()].as_str().unwrap().to_string()).collect(),
+        _ => Vec::new(),
+    };
     let policy = |e: u8| -> &str {
         if e == 200 {
             "reply"
@@ -93,17 +98,30 @@ fn one_run(ops: &[Value], tr: &mut Trace) -> (usize, String) {
         async move {
             loop {
                 let Ok(mut ex) = Exchange::accept(b).await else { break };
+                // which (session, exchange id) did this handler really get?  From the device's own tables.
+                let raw = ex.id().verif_raw();
+                let (own_s, own_e) = b.with_state(|st| {
+                    let snap = st.verif_snapshot();
+                    snap.sessions.sessions.iter().find(|x| x.id == (raw & 0x0fff_ffff)).map(|x| {
+                        let e = x.exchanges.iter().find(|e| e.index == (raw >> 28) as usize).map(|e| e.exch_id).unwrap_or(0);
+                        ((x.local_sess_id - 10) as u32, if e >= 100 && e < 110 { (e - 100) as u32 } else { e as u32 })
+                    }).unwrap_or((0, 0))
+                });
                 let r: Result<(), Error> = async {
-                    let first = {
+                    let (first, ts) = {
                         let rx = ex.recv().await?;
-                        rx.payload().first().copied().unwrap_or(0)
+                        (rx.payload().first().copied().unwrap_or(0), rx.payload().get(2).copied().unwrap_or(0))
                     };
-                    events.borrow_mut().push(json!({"ev": "AppRx", "x": x, "ex": if first == 200 { 900 } else { first as u32 }, "tag": if first == 200 { 900 } else { first as u32 }, "t": sim::now_ms(), "seq": sim::next_seq()}));
+                    events.borrow_mut().push(json!({"ev": "AppRx", "x": x, "s": own_s, "ex": own_e, "ts": ts, "tag": if first == 200 { 900 } else { first as u32 }, "t": sim::now_ms(), "seq": sim::next_seq()}));
                     match policy(first) {
                         "reply" => {
                             ex.send(MessageMeta::new(PROTO, 0x80, false), &[first]).await?;
                         }
                         "drop" => {}
+                        "relDrop" => {
+                            // a reliable answer, and the exchange is dropped while it is still unacknowledged
+                            let _ = select(ex.send(MessageMeta::new(PROTO, 0x81, true), &[first]), embassy_time::Timer::after_millis(20)).await;
+                        }
                         _ => {
                             // hold: keep receiving on this exchange for two seconds
                             let mut hold = pin!(embassy_time::Timer::after_secs(2));
@@ -111,7 +129,8 @@ fn one_run(ops: &[Value], tr: &mut Trace) -> (usize, String) {
                                 match select(ex.recv(), &mut hold).await {
                                     Either::First(Ok(rx)) => {
                                         let tag = rx.payload().first().copied().unwrap_or(0);
-                                        events.borrow_mut().push(json!({"ev": "AppRx", "x": x, "ex": first as u32, "tag": tag as u32, "t": sim::now_ms(), "seq": sim::next_seq()}));
+                                        let ts = rx.payload().get(2).copied().unwrap_or(0);
+                                        events.borrow_mut().push(json!({"ev": "AppRx", "x": x, "s": own_s, "ex": own_e, "ts": ts, "tag": tag as u32, "t": sim::now_ms(), "seq": sim::next_seq()}));
                                     }
                                     _ => break,
                                 }
@@ -142,7 +161,8 @@ fn one_run(ops: &[Value], tr: &mut Trace) -> (usize, String) {
     };
     dec.keys.insert((1, 21), (kba(1), 200));
     dec.keys.insert((1, 22), (kba(2), 201));
-    let mut ctr = [1000u32, 1000u32];
+    dec.keys.insert((1, 23), (kba(3), 202));
+    let mut ctr = [1000u32, 1000u32, 1000u32];
     let mut opi = 1usize;
     let mut phase = 0; // 0 = schedule, 1 = waiting before probe, 2 = probe sent, 3 = wind down
     let mut tapped = 0usize;
@@ -151,6 +171,7 @@ fn one_run(ops: &[Value], tr: &mut Trace) -> (usize, String) {
     let mut n_inj = 0usize;
     let mut settle = 0;
     let mut wait_until = 0u64;
+    let mut probe_wait_set = false;
     let mut out: Vec<Value> = Vec::new();
 
     let end = drive(all.as_mut(), &net, &Limits { max_virtual_ms: 120_000, ..Default::default() }, |net| {
@@ -164,6 +185,7 @@ fn one_run(ops: &[Value], tr: &mut Trace) -> (usize, String) {
                 let t = dec.decode(&d);
                 let (kind, e) = match &t.proto {
                     Some(p) if p.proto_id == 0 && p.opcode == 0x10 => ("sack", p.exch_id),
+                    Some(p) if p.proto_id == 0 && p.opcode == 0x40 && t.encrypted && p.payload.len() >= 8 && p.payload[6] == 3 && p.payload[7] == 0 => ("close", p.exch_id),
                     Some(p) if p.proto_id == 0 && p.opcode == 0x40 => ("status", p.exch_id),
                     Some(p) if p.proto_id == PROTO => ("reply", p.exch_id),
                     Some(p) => ("other", p.exch_id),
@@ -174,7 +196,9 @@ fn one_run(ops: &[Value], tr: &mut Trace) -> (usize, String) {
                     probe_answered = true;
                     out.push(json!({"ev": "ProbeAnswered", "t": t.t_ms, "seq": d.seq}));
                 }
-                out.push(json!({"ev": "Tx", "kind": kind, "e": e, "secured": t.encrypted, "t": t.t_ms, "seq": d.seq}));
+                let ws = if t.encrypted && t.sess_id >= 20 { (t.sess_id - 20) as u32 } else { 0 };
+                let gone: Vec<u32> = (1..=3u32).filter(|ss| !b.with_state(|st| st.verif_snapshot().sessions.sessions.iter().any(|x| x.local_sess_id == 10 + *ss as u16))).collect();
+                out.push(json!({"ev": "Tx", "kind": kind, "s": ws, "e": e, "secured": t.encrypted, "gone": gone, "t": t.t_ms, "seq": d.seq}));
             }
         }
         {
@@ -209,22 +233,23 @@ fn one_run(ops: &[Value], tr: &mut Trace) -> (usize, String) {
                 match op["op"].as_str().unwrap() {
                     "Pkt" => {
                         let e = op["e"].as_u64().unwrap() as u8;
+                        let ss = op["s"].as_u64().unwrap_or(1) as u8;
                         let (init, rel) = (op["init"].as_bool().unwrap(), op["rel"].as_bool().unwrap());
                         seqno = seqno.wrapping_add(1);
-                        ctr[0] += 1;
-                        let kind = "data";
-                        tr.ev(json!({"ev": "Inj", "kind": kind, "e": e, "init": init, "rel": rel, "t": sim::now_ms()}));
-                        Step::Inject { src: 0, dst: 1, data: craft(1, ctr[0], 100 + e as u16, init, rel, PROTO, 1, &[e, seqno]) }
+                        ctr[ss as usize - 1] += 1;
+                        // does the device (still) have that session?  an observation of the real state, not a guess
+                        let alive = b.with_state(|st| st.verif_snapshot().sessions.sessions.iter().any(|x| x.local_sess_id == 10 + ss as u16));
+                        let kind = if alive { "data" } else { "dataNoSession" };
+                        tr.ev(json!({"ev": "Inj", "kind": kind, "s": ss, "e": e, "init": init, "rel": rel, "t": sim::now_ms()}));
+                        Step::Inject { src: 0, dst: 1, data: craft(ss, ctr[ss as usize - 1], 100 + e as u16, init, rel, PROTO, 1, &[e, seqno, ss]) }
                     }
-                    "CloseSession" => {
-                        // a CloseSession status report on a fresh exchange is not a candidate for a new exchange and is
-                        // dropped by the stack, so the model's "session vanished" step is exercised with a secured datagram
-                        // for a session the device does not have
-                        tr.ev(json!({"ev": "Inj", "kind": "dataNoSession", "e": 0, "init": true, "rel": true, "t": sim::now_ms()}));
-                        Step::Inject { src: 0, dst: 1, data: craft(3, 77, 160, true, true, PROTO, 1, &[9, 9]) }
+                    "Stray" | "CloseSession" => {
+                        // a secured datagram for a session the device never had
+                        tr.ev(json!({"ev": "Inj", "kind": "dataNoSession", "s": 4, "e": 0, "init": true, "rel": true, "t": sim::now_ms()}));
+                        Step::Inject { src: 0, dst: 1, data: craft(4, 77, 160, true, true, PROTO, 1, &[9, 9, 4]) }
                     }
                     "Unsec" => {
-                        tr.ev(json!({"ev": "Inj", "kind": "unsecStatus", "e": 0, "init": false, "rel": false, "t": sim::now_ms()}));
+                        tr.ev(json!({"ev": "Inj", "kind": "unsecStatus", "s": 0, "e": 0, "init": false, "rel": false, "t": sim::now_ms()}));
                         Step::Inject { src: 0, dst: 1, data: unsecured_status() }
                     }
                     "Wait" => Step::AdvanceMs(op["ms"].as_u64().unwrap()),
@@ -232,15 +257,16 @@ fn one_run(ops: &[Value], tr: &mut Trace) -> (usize, String) {
                 }
             }
             1 => {
-                // the probe: a fresh request on the second session
+                // the probe: a fresh request on the third session
                 phase = 2;
-                ctr[1] += 1;
+                ctr[2] += 1;
                 tr.ev(json!({"ev": "ProbeSent", "t": sim::now_ms()}));
                 settle = 2;
-                Step::Inject { src: 0, dst: 1, data: craft(2, ctr[1], 900, true, false, PROTO, 1, &[200, 0]) }
+                Step::Inject { src: 0, dst: 1, data: craft(3, ctr[2], 900, true, false, PROTO, 1, &[200, 0, 3]) }
             }
             2 => {
-                if wait_until < sim::now_ms() + 1 && phase == 2 {
+                if !probe_wait_set {
+                    probe_wait_set = true;
                     wait_until = sim::now_ms() + 20_000;
                 }
                 if sim::now_ms() < wait_until && sim::next_timer_ms().map(|t| t <= wait_until).unwrap_or(false) {
@@ -253,19 +279,29 @@ fn one_run(ops: &[Value], tr: &mut Trace) -> (usize, String) {
         }
     });
     let left = b.with_state(|s| s.verif_snapshot().sessions.sessions.iter().map(|x| x.exchanges.len()).sum::<usize>());
+    let gone: Vec<u32> = (1..=3u32).filter(|ss| !b.with_state(|st| st.verif_snapshot().sessions.sessions.iter().any(|x| x.local_sess_id == 10 + *ss as u16))).collect();
     for e in events.borrow_mut().drain(..) {
         tr.ev(e);
     }
-    tr.ev(json!({"ev": "End", "left": left, "how": format!("{:?}", end), "probe_answered": probe_answered}));
+    let detail: Vec<String> = b.with_state(|s| s.verif_snapshot().sessions.sessions.iter().flat_map(|x| x.exchanges.iter().map(move |e| format!("sess{} exch{} role{} retrans{:?} ack{:?}", x.local_sess_id, e.exch_id, e.role, e.retrans, e.ack))).collect());
+    tr.ev(json!({"ev": "End", "left": left, "gone": gone, "detail": detail, "how": format!("{:?}", end), "probe_answered": probe_answered}));
     (n_inj, format!("{:?}", end))
 }
 
 pub fn run(args: &[String]) -> i32 {
     let mut behaviours = read_ndjson(&arg(args, "--behaviours").expect("--behaviours"));
     // harness-made schedules: unsecured status reports that belong to nothing (before, between and after real traffic)
-    behaviours.push(json!([{"op": "Policy", "p": ["reply", "reply", "reply"]}, {"op": "Unsec"}, {"op": "Pkt", "e": 1, "init": true, "rel": true}, {"op": "Unsec"}, {"op": "Unsec"}]));
-    behaviours.push(json!([{"op": "Policy", "p": ["hold", "drop", "reply"]}, {"op": "Pkt", "e": 1, "init": true, "rel": true}, {"op": "Pkt", "e": 2, "init": true, "rel": true},
-                           {"op": "Pkt", "e": 3, "init": true, "rel": true}, {"op": "Unsec"}, {"op": "CloseSession"}, {"op": "Pkt", "e": 3, "init": true, "rel": true}, {"op": "Unsec"}]));
+    behaviours.push(json!([{"op": "Policy", "p": ["reply", "reply", "reply"]}, {"op": "Unsec"}, {"op": "Pkt", "s": 1, "e": 1, "init": true, "rel": true}, {"op": "Unsec"}, {"op": "Unsec"}]));
+    behaviours.push(json!([{"op": "Policy", "p": ["hold", "drop", "reply"]}, {"op": "Pkt", "s": 1, "e": 1, "init": true, "rel": true}, {"op": "Pkt", "s": 1, "e": 2, "init": true, "rel": true},
+                           {"op": "Pkt", "s": 2, "e": 3, "init": true, "rel": true}, {"op": "Unsec"}, {"op": "Stray"}, {"op": "Pkt", "s": 1, "e": 3, "init": true, "rel": true}, {"op": "Unsec"}]));
+    // the same exchange id live on two sessions while the first owner is waiting for its next message
+    behaviours.push(json!([{"op": "Policy", "p": ["hold", "hold", "reply"]}, {"op": "Pkt", "s": 1, "e": 1, "init": true, "rel": false}, {"op": "Pkt", "s": 2, "e": 1, "init": true, "rel": false},
+                           {"op": "Pkt", "s": 2, "e": 1, "init": true, "rel": true}, {"op": "Pkt", "s": 1, "e": 1, "init": true, "rel": true}]));
+    // a message parked for accept (both handlers busy) while its session is closed by a dropped exchange with a pending retransmission
+    behaviours.push(json!([{"op": "Policy", "p": ["hold", "relDrop", "reply"]}, {"op": "Pkt", "s": 1, "e": 1, "init": true, "rel": false}, {"op": "Pkt", "s": 1, "e": 2, "init": true, "rel": false},
+                           {"op": "Pkt", "s": 1, "e": 3, "init": true, "rel": true}, {"op": "Pkt", "s": 2, "e": 3, "init": true, "rel": true}]));
+    behaviours.push(json!([{"op": "Policy", "p": ["hold", "hold", "relDrop"]}, {"op": "Pkt", "s": 1, "e": 3, "init": true, "rel": false}, {"op": "Pkt", "s": 2, "e": 1, "init": true, "rel": false}, {"op": "Pkt", "s": 2, "e": 2, "init": true, "rel": false},
+                           {"op": "Pkt", "s": 1, "e": 1, "init": true, "rel": true}, {"op": "Pkt", "s": 1, "e": 2, "init": true, "rel": true}]));
     let mut tr = Trace::create(&arg(args, "--out").expect("--out"));
     let mut n = 0usize;
     for (bi, b) in behaviours.iter().enumerate() {
